@@ -273,7 +273,7 @@ def rule_enumerate_call(text, ctx):
         text = text[:toks[start].s] + new + text[toks[i + 2].e:]
 
 
-def rule_for_to_loop(text, ctx, all_for=False, own=False):
+def rule_for_to_loop(text, ctx, all_for=False, own=False, only_prefix=None):
     """R3: `for PAT in EXPR.by_ref() {B}` -> `loop { match EXPR.next() { Some(PAT) => {B} None => {break;} } }`.
     With all_for, `for PAT in EXPR {B}` over a generic IntoIterator is rewritten with an explicit
     `let mut it = EXPR.into_iter();`."""
@@ -302,7 +302,7 @@ def rule_for_to_loop(text, ctx, all_for=False, own=False):
                 brace = k
                 expr = text[toks[in_k].e:toks[brace].s].strip()
                 by_ref = expr.endswith('.by_ref()')
-                if by_ref or (all_for and not re.match(r'^[\w.()]*\.\.', expr) and '..' not in expr):
+                if by_ref or (all_for and not re.match(r'^[\w.()]*\.\.', expr) and '..' not in expr and (only_prefix is None or expr.startswith(only_prefix))):
                     hit = (i, in_k, brace, expr, by_ref)
                     break
         if not hit:
@@ -460,6 +460,38 @@ def rule_enumerate(text, ctx):
         return new
     text = re.sub(r'for \((\w+), &(\w+)\) in ([\w.]+)\.iter\(\)\.enumerate\(\)\.skip\(([\w.]+)\) \{', f2, text)
     return text
+
+
+def rule_filter_enumerate(text, ctx):
+    """R25: `for (C, &F) in V.iter().enumerate().filter(|(_, &F)| COND) { BODY }` -> `for C in 0..V.len() { let F = V[C]; if COND { BODY } }`
+            `for (I, &(C, _)) in V.iter().enumerate() {` -> `for I in 0..V.len() { let C = V[I].0;`"""
+    m = re.search(r'for \((\w+), &(\w+)\) in ([\w.]+)\.iter\(\)\.enumerate\(\)\.filter\(\|\(_, &(\w+)\)\| ([^)]*)\) \{', text)
+    if m and m.group(2) == m.group(4):
+        c, f, v, cond = m.group(1), m.group(2), m.group(3), m.group(5)
+        open_pos = m.end() - 1
+        toks = L.code_toks(text)
+        oi = [i for i, t in enumerate(toks) if t.s == open_pos][0]
+        close_pos = toks[L.match_close(toks, oi)].s
+        new = 'for %s in 0..%s.len() { let %s = %s[%s]; if %s {' % (c, v, f, v, c, cond)
+        ctx.note('R25', m.group(0), new + ' ... } }')
+        text = text[:m.start()] + new + text[m.end():close_pos] + '} }' + text[close_pos + 1:]
+
+    def f4(mm):
+        i, c, v = mm.group(1), mm.group(2), mm.group(3)
+        new = 'for %s in 0..%s.len() { let %s = %s[%s].0;' % (i, v, c, v, i)
+        ctx.note('R25', mm.group(0), new)
+        return new
+    text = re.sub(r'for \((\w+), &\((\w+), _\)\) in ([\w.]+)\.iter\(\)\.enumerate\(\) \{', f4, text)
+    return text
+
+
+def rule_sort_freq(text, ctx):
+    """R26: `sorted.sort_unstable_by(|(c1, f1), (c2, f2)| f2.cmp(f1).then_with(|| c1.cmp(c2)));` -> `verif_sort_freq(&mut sorted);`
+    (external_body wrapper, body = original call; contract: the result is a permutation of the input)"""
+    def f(m):
+        ctx.note('R26', m.group(0), 'verif_sort_freq(&mut sorted);')
+        return 'verif_sort_freq(&mut sorted);'
+    return re.sub(r'sorted\.sort_unstable_by\(\|\(c1, f1\), \(c2, f2\)\| f2\.cmp\(f1\)\.then_with\(\|\| c1\.cmp\(c2\)\)\);', f, text)
 
 
 def rule_guarded_continue(text, ctx):
@@ -704,6 +736,10 @@ def apply_fn(text, spec, ctx, assoc_types=None, canary=False):
         text = rule_mut_self(text, ctx)
     if 'R24' in spec.rules:
         text = rule_str_tail(text, ctx)
+    if 'R25' in spec.rules:
+        text = rule_filter_enumerate(text, ctx)
+    if 'R26' in spec.rules:
+        text = rule_sort_freq(text, ctx)
     text = rule_get_unchecked(text, ctx)
     text = rule_debug_assert(text, ctx)
     if 'R8c' in spec.rules:
@@ -713,7 +749,8 @@ def apply_fn(text, spec, ctx, assoc_types=None, canary=False):
     text = rule_assert_msg(text, ctx)
     if 'R5' in spec.rules:
         text = rule_ref_patterns(text, ctx)
-    text = rule_for_to_loop(text, ctx, all_for=('R3all' in spec.rules or 'R3own' in spec.rules), own=('R3own' in spec.rules))
+    text = rule_for_to_loop(text, ctx, all_for=('R3all' in spec.rules or 'R3own' in spec.rules or 'R3into' in spec.rules), own=('R3own' in spec.rules),
+                            only_prefix=('verif_into_iter(' if 'R3into' in spec.rules else None))
 
     # closures first (they do not change loop count)
     for (k, orig, new, clause) in spec.closures:
